@@ -18,7 +18,7 @@ import (
 
 func Main() {
 	mc.Main("C05", "model_checking",
-		"explicit-state breadth-first search over real needle maps (replay from the initial state on a fresh instance for every transition): events put(key,size in {5,0,7}) / delete(key) / reopen over 3-7 keys (adjacent, out of order, 2^32 apart), every sequence executed up to the unmerged depth, then merged on a canonical form made of the real map's lookups + internal section/overflow layout + reference state; initial states: empty, a section filled with exactly `batch`=100000 keys, batch-1 keys, 1+300 descending keys (look-back insert + overflow); after every event all keys are looked up and compared with a reference map; delete return values and reload (lookups + FileCount/DeletedCount/ContentSize/DeletedSize) are compared; both offset widths; distinct = (sub-search, multiset of op kinds, last op, outcome)",
+		"explicit-state breadth-first search over real needle maps (replay from the initial state on a fresh instance for every transition): events put(key,size in {5,0,7}) / delete(key) / reopen over 3-7 keys (adjacent, out of order, 2^32 apart), every sequence executed up to the unmerged depth, then merged on a canonical form made of the real map's lookups + internal section/overflow layout + reference state; initial states: empty, a section filled with exactly `batch`=100000 keys, batch-1 keys, 1+300 descending keys (look-back insert + overflow), first key 5000 + 300 ascending keys (large section start); after every event all keys are looked up and compared with a reference map; delete return values and reload (lookups + FileCount/DeletedCount/ContentSize/DeletedSize) are compared; both offset widths; distinct = (sub-search, multiset of op kinds, last op, outcome)",
 		run)
 }
 
@@ -52,6 +52,8 @@ func subs(r *mc.Run) []subSearch {
 		{name: "compactmap/batch-1", kind: "cm", pre: "batch-1", uni: pick(p["batch-1"].uniQ, p["batch-1"].uniT), unmerged: 2, depth: 3, workers: 4},
 		{name: "compactmap/desc", kind: "cm", pre: "desc", uni: pick(p["desc"].uniQ, p["desc"].uniT), unmerged: 2, depth: d(3, 4), workers: 4},
 		{name: "memory/desc", kind: "memory", pre: "desc", uni: pick([]uint64{2, 301}, []uint64{2, 301, 599}), unmerged: 2, depth: d(4, 5), workers: 4},
+		{name: "compactmap/high", kind: "cm", pre: "high", uni: pick(p["high"].uniQ, p["high"].uniT), unmerged: 2, depth: d(3, 4), workers: 4},
+		{name: "memory/high", kind: "memory", pre: "high", uni: pick(p["high"].uniQ, p["high"].uniT[:4]), unmerged: 2, depth: d(3, 4), workers: 4},
 		{name: "sorted/empty", kind: "sorted", pre: "empty", uni: pick([]uint64{1, far}, []uint64{2, 1, far}), depth: d(2, 3), workers: 4, pairs: !q},
 	}
 	if !q {
